@@ -506,6 +506,23 @@ pub fn generate(ctx: &mut Ctx) {
             }
         }
     }
+    // 2a. one macro form that breaks off where the next begins: `${aa$a}`, `$<aa${a}`, `${$aa}`, `${${a}}` ... - every
+    //     opening form x tag x what interrupts it x what follows, in the fixed scope (longer than the enumeration reaches)
+    {
+        let (d, l) = fixed_scope();
+        let (ds, ls) = (show_dict(&d), show_loc(&l));
+        for open in ["${", "$<", "$", ""] {
+            for tag in ["", "a", "aa", "aB", "zz"] {
+                for brk in ["$", "${", "$<", "}", ">", " ", "}$", ">$"] {
+                    for next in ["a", "aa}", "aa>", "{a}", "<a>", "aB", "zz", "a}", ""] {
+                        let p = format!("{open}{tag}{brk}{next}");
+                        ctx.case("break", &format!("pat {} {ds} {ls}", h(&p)));
+                        ctx.case("break", &format!("pat {} {ds} {ls}", h(&format!("x {p} y"))));
+                    }
+                }
+            }
+        }
+    }
     // 3. random patterns over the macro alphabet
     for _ in 0..ctx.n(3000, 150_000) {
         let mut rng = ctx.rng.fork();
